@@ -17,6 +17,37 @@ PROPS = {
     },
 }
 
+PROPS["C12"] = {
+    "engines": {"hm": {"quick": 500, "thorough": 6000}},
+    "rule": "hash-map op sequences (10-300 ops: insert/entry/remove/get/get_mut/contains/reserve/clear/clone/len/iter/cap/dropped) over key universes built to "
+            "collide on one home slot of a capacity of the growth sequence, to sit at the end of the bucket array (wrap-around), to hash to the reserved value 0, "
+            "plus string keys; drop-logging key and value types; a scripted allocator failing the k-th allocation of an op in every third case. "
+            "non-trivial = at least two insert/entry ops; distinct = distinct op sequences",
+    "trusted_base": ["needs_grow's f32 comparison modelled as the exact rational test 10*count > 7*cap (equal for the capacities exercised; capacities are compared line by line through the `cap` op)",
+                     "raw-pointer storage, Layout arithmetic and ptr::read/write/drop_in_place are modelled as slots + returned (displaced) entries; memory safety itself is not proved"],
+    "assumptions": ["K: Eq is an equivalence and Hash respects it (hypothesis of the theorems: DecidableEq K and hashOf a function of the key)",
+                    "clone() unwraps allocation results (its signature has no error channel): allocation faults are not injected into clone"],
+    "partial": "",
+    "technique": "Lean 4 refinement proof (open-addressing model with backward-shift deletion refines an association-list map for all op sequences and allocation-failure schedules) + differential correspondence",
+    "level_text": "Proved in Lean for every key type with decidable equality, every hash function, every initial capacity, every operation sequence and every allocation-failure decision: the code-shaped model of CaoHashMap (probe loop with fuel, load-factor growth, rehash, backward-shift remove, entry) keeps its representation invariant, never reaches the non-termination/panic outcome (hm_find_terminates, hm_never_panics), returns exactly what an association-list map returns (hm_refines: get/contains/remove/entry/len, iteration up to permutation), leaves other keys untouched (hm_frame), is unchanged by a failed allocation (hm_alloc_fail) and accounts for every stored entry exactly once (hm_drop_once). The model is tied to hash_map.rs by the hm correspondence engine (outputs, exact capacities and drop logs compared line by line) and a BTreeMap oracle runs on the real code.",
+    "level_note": "Trusted: Lean kernel; hand-written model vs hash_map.rs only as far as the sampled differential run shows; f32 load-factor test modelled exactly; unsafe pointer code not verified for memory safety.",
+    "design_ref": "DESIGN.md 7 (C12), 6.4",
+}
+
+PROPS["C13"] = {
+    "engines": {"ht": {"quick": 500, "thorough": 6000}},
+    "rule": "handle-table op sequences (10-300 ops) with initial capacities 0-40 and powers of two, handles chosen for equal home slots / wrap-around / handle 0, "
+            "more than 16 keys through entry, scripted allocation failures (first or second allocation of alloc_storage); non-trivial = at least two insert/entry ops",
+    "trusted_base": ["(count+1) as f32 > cap as f32 * 0.69 modelled as 100*(count+1) > 69*cap; reserve's (n as f32 * 1.69) as usize modelled as n*169/100 (capacities compared line by line through the `cap` op)",
+                     "unsafe pointer code not verified for memory safety"],
+    "assumptions": ["Index/IndexMut on an absent handle panic by contract and are only exercised on present handles", "entry() has no error channel: an allocation failure while it grows is a panic by contract (documented in the fix)"],
+    "partial": "",
+    "technique": "Lean 4 refinement proof (power-of-two open-addressing model refines a map on non-zero handles; all insertion paths terminate) + differential correspondence",
+    "level_text": "Proved in Lean for every requested initial capacity >= 0, every operation sequence and allocation decision: every reachable capacity is a power of two >= 2 (ht_pow2), the probe loop always returns (ht_find_terminates), n distinct handles inserted through insert and/or entry are all found and count = n (ht_all_paths_terminate), the model refines an association-list map on non-zero handles (ht_refines), other handles are unaffected (ht_frame), failures leave the state unchanged (ht_alloc_fail) and each stored value is accounted for exactly once (ht_drop_once). Tied to handle_table.rs by the ht correspondence engine (outputs, capacities, drop logs) plus a BTreeMap oracle with a hang watchdog on the real code.",
+    "level_note": "Trusted: Lean kernel; hand-written model vs handle_table.rs as far as the sampled differential run shows; f32 load-factor arithmetic modelled exactly; unsafe pointer code not verified for memory safety.",
+    "design_ref": "DESIGN.md 7 (C13), 6.4",
+}
+
 # properties not claimed yet (kept current; moved into PROPS as their checks land)
 NOT_YET = {
     "C01": "check under construction in this session (see DESIGN.md section 9 for the order of work); not yet claimed",
